@@ -49,6 +49,12 @@ def cls(rng):
             c = rng.choice(CCRAW)
             if c == "^" and not items and not neg and not lead: c = "a"
             items.append(c)
+    # the regex engine mishandles a NEGATED class that contains both \p{C} and \P{C} for the same C (it matches everything
+    # instead of nothing): a defect of the third-party engine, listed as a known finding with explicit instances below
+    if neg:
+        cats_p = {i[3:-1] for i in items if i.startswith("\\p{")}
+        cats_P = {i[3:-1] for i in items if i.startswith("\\P{")}
+        items = [i for i in items if not (i.startswith("\\P{") and i[3:-1] in cats_p)] or ["a"]
     return "[" + ("^" if neg else "") + ("-" if lead else "") + "".join(items) + ("-" if rng.random() < 0.15 else "") + "]"
 
 
@@ -115,6 +121,7 @@ def cases(ctx, budget):
             yield mk(False, s, p, "invalid-pattern"); yield mk(True, s, p, "invalid-pattern")
     # quantities with leading zeros are valid per RFC 9485 (QuantExact = 1*DIGIT); the iregexp_check dependency refuses them
     yield mk(False, "", "a{00}", "leading-zero-quantity"); yield mk(False, "a", "a{01,2}", "leading-zero-quantity")
+    yield mk(False, "0", "[^\\P{Ll}\\p{Ll}]", "negated-complementary-categories"); yield mk(True, "xA", "[^\\p{Lu}\\P{Lu}]", "negated-complementary-categories")
     for bad in (1, None, True, 1.5, [], {}, ["a"]):
         for f, name in ((fm, "match"), (fs, "search")):
             for args in ((bad, "a"), ("a", bad), (bad, bad)):
